@@ -514,7 +514,7 @@ pub fn run_check(ctx: &Ctx) -> Report {
     let shards = ctx.shards;
     let enum_len = ctx.pick(4usize, 5usize);
     par_shards(ctx.shards, rep, move |shard, r| {
-        let cfg = DiffCfg { prop: "C03", driver: "alloc-programs", profile: Profile::alloc(), cases, max_len: 700, seed: seed.wrapping_mul(179_424_673) + shard as u64 };
+        let cfg = DiffCfg { prop: "C03", driver: "alloc-programs", profile: Profile::alloc(), cases, max_len: 700, seed: seed.wrapping_mul(179_424_673) + shard as u64, layout: false };
         run_alloc_tapes(r, &cfg, &known);
         history_driver(r, "C03", false, seed.wrapping_mul(198_491_317) + shard as u64, hist, shard, shards, enum_len);
         // (C) the collector of a retained machine: sessions whose lines keep heap values in globals across runs, fail at run time,
